@@ -74,6 +74,12 @@ Fixpoint str_eqb (a b : list N) : bool :=
 Definition comma : N := 44.
 Definition semi : N := 59.
 
+(* header names: request side read by _pick_response_encoding, response side stamped by process_response *)
+Definition hdr_standard : list N := [65; 99; 99; 101; 112; 116; 45; 69; 110; 99; 111; 100; 105; 110; 103].                                   (* Accept-Encoding *)
+Definition hdr_custom : list N := [88; 45; 86; 71; 73; 45; 65; 99; 99; 101; 112; 116; 45; 69; 110; 99; 111; 100; 105; 110; 103].              (* X-VGI-Accept-Encoding *)
+Definition announce_standard : list N := [67; 111; 110; 116; 101; 110; 116; 45; 69; 110; 99; 111; 100; 105; 110; 103].                        (* Content-Encoding *)
+Definition announce_custom : list N := [88; 45; 86; 71; 73; 45; 67; 111; 110; 116; 101; 110; 116; 45; 69; 110; 99; 111; 100; 105; 110; 103].  (* X-VGI-Content-Encoding *)
+
 (* ---------- parse_encoding_list ---------- *)
 (* token = raw.strip().lower(); `continue` when empty (None); drop ";..." parameters *)
 Definition norm_token (raw : list N) : option (list N) :=
@@ -181,6 +187,28 @@ Definition respond (cfg : list enc) (std cus : option (list N)) (r : resp_in) : 
   let '(chosen, used_custom) := pick cfg std cus in
   process_response chosen used_custom r (produce (response_codec chosen) r).
 
+(* ---------- specification side ---------- *)
+(* an entry of an Accept-Encoding style header names a coding: parameters dropped, trimmed, ASCII case folded *)
+Definition entry_name (raw : list N) : list N := lower (strip (take_until semi raw)).
+Definition entries (h : option (list N)) : list (list N) := map entry_name (split_on comma (hdr h)).
+(* the client's preference order: the VGI header's entries first, then the generic header's, textual order *)
+Definition client_order (std cus : option (list N)) : list (list N) := entries cus ++ entries std.
+Definition identity_name : list N := enc_value Identity.
+(* what the server can produce: identity always; a codec iff configured and supported by the runtime *)
+Definition producible (cfg : list enc) (name : list N) : bool :=
+  str_eqb identity_name name || existsb (fun e => str_eqb (enc_value e) name) (levels_of cfg).
+Definition enc_of_name (name : list N) : option enc := find (fun e => str_eqb (enc_value e) name) all_enc.
+(* the coding a producible name stands for: identity = no coding *)
+Definition coding_of_name (name : list N) : option enc := find (fun e => str_eqb (enc_value e) name) [Zstd; Gzip].
+Definition known_names (ns : list (list N)) : list enc :=
+  flat_map (fun n => match enc_of_name n with Some e => [e] | None => [] end) ns.
+(* append the elements of l not yet present, in order *)
+Fixpoint add_new (out l : list enc) : list enc :=
+  match l with
+  | [] => out
+  | e :: r => if mem e out then add_new out r else add_new (out ++ [e]) r
+  end.
+
 (* ---------- correspondence entry points ---------- *)
 Definition enc_code (e : enc) : N := match e with Zstd => 1 | Gzip => 2 | Identity => 3 end.
 Definition code_enc (n : N) : option enc :=
@@ -189,11 +217,11 @@ Fixpoint codes_enc (l : list N) : list enc :=
   match l with [] => [] | n :: r => match code_enc n with Some e => e :: codes_enc r | None => codes_enc r end end.
 (* parse: header string -> codes of the parsed encodings *)
 Definition run_parse (h : list N) : list N := map enc_code (parse_encoding_list h).
-(* full: (cfg codes, Accept-Encoding, X-VGI-Accept-Encoding, (arrow, owns, body-nonempty))
+(* full: (cfg codes, Accept-Encoding, X-VGI-Accept-Encoding, (arrow, owns, body-nonempty, stream-is-IOBase))
          -> (header kind 0 none / 1 Content-Encoding / 2 X-VGI-Content-Encoding, announced coding, coding of the body bytes) *)
-Definition run_case (x : list N * option (list N) * option (list N) * (bool * bool * bool)) : N * N * N :=
-  let '(cfg, std, cus, (arrow, owns, nonempty)) := x in
-  let r := {| r_arrow := arrow; r_owns := owns; r_iobase := true; r_plain := if nonempty then [0] else [] |} in
+Definition run_case (x : list N * option (list N) * option (list N) * (bool * bool * bool * bool)) : N * N * N :=
+  let '(cfg, std, cus, (arrow, owns, nonempty, iobase)) := x in
+  let r := {| r_arrow := arrow; r_owns := owns; r_iobase := iobase; r_plain := if nonempty then [0] else [] |} in
   let '(a, b) := respond (codes_enc cfg) std cus r in
   let '(hk, he) := match a with
                    | NoHeader => (0, 0)
@@ -202,3 +230,15 @@ Definition run_case (x : list N * option (list N) * option (list N) * (bool * bo
                    end in
   let bc := match b with Plain _ => 0 | ByMiddleware e _ => enc_code e | ByProducer e _ => enc_code e end in
   (hk, he, bc).
+
+(* compact case files: a string travels as one number, little-endian base 2^21 digits (code point + 1) *)
+Definition pack_base : N := 2097152.
+Fixpoint unpack_fuel (fuel : nat) (n : N) : list N :=
+  match fuel with
+  | O => []
+  | S f => if n =? 0 then [] else (n mod pack_base - 1) :: unpack_fuel f (n / pack_base)
+  end.
+Definition unpack (n : N) : list N := unpack_fuel (S (N.to_nat (N.log2 n))) n.
+Definition run_parse_packed (n : N) : list N := run_parse (unpack n).
+Definition run_case_packed (x : list N * option N * option N * (bool * bool * bool * bool)) : N * N * N :=
+  let '(cfg, std, cus, fl) := x in run_case (cfg, option_map unpack std, option_map unpack cus, fl).
